@@ -37,6 +37,9 @@ SrcArr(a, pp) ==
     [] a = 10 -> <<Coll(<<L(1), L(2), L(3), L(4)>>), L(5), Coll(<<L(6)>>)>>
     [] a = 11 -> <<L(1), L(2), L(3)>>
     [] a = 12 -> <<L(2), Coll(<<L(1), L(3)>>), L(2)>>
+    \* collections that also hold sensors, FOLLOWED by further entries (the sensors take no part in the field of the collection)
+    [] a = 13 -> <<Coll(<<L(1), SensIn, L(2)>>), Coll(<<L(3), L(4)>>)>>
+    [] a = 14 -> <<Coll(<<L(1), L(2), Coll(<<SensIn, SensIn>>)>>), L(3), Coll(<<L(4), L(5)>>)>>
 
 \* ---------------------------------------------------------------- sensor kinds
 P2 == <<<<1, -1, 2>>, <<0, 2, -1>>>>
